@@ -483,7 +483,13 @@ pub fn extra(_tier: Tier, _seed: u64) -> ExtraReport {
   let mut sigs = std::collections::BTreeSet::new();
   let mut parsed = 0u64;
   for (file, name, src) in corpus_sources() {
+    if let Some(only) = crate::runner::only_corpus_file() {
+      if only != file {
+        continue;
+      }
+    }
     let Some(mt) = media_type_of(&name) else { continue };
+    crate::runner::set_current_item(&serde_json::json!({"corpus_file": file, "module": name}));
     let src = src.trim_start_matches("HEADERS:").to_string();
     let url = ModuleSpecifier::parse("file:///corpus.ts").unwrap();
     let Ok(info) = deno_graph::ast::ParserModuleAnalyzer::default()
